@@ -254,6 +254,7 @@ def env_generator_attrs(ctx: Ctx):
     atsp_triangle(ctx)
     integer_demands(ctx)
     cvrptw_windows(ctx)
+    fjsp_eligibility(ctx)
     # C18.f: MTVRP generator -- time windows / service times are times, built from distances through the speed
     from .. import units
     menv = EnvA(ctx.repo, T.ALL_ENVS["MTVRPEnv"], "MTVRPEnv")
@@ -262,6 +263,155 @@ def env_generator_attrs(ctx: Ctx):
         raise AnalysisError("MTVRPGenerator._generate not analysable")
     ctx.fn(gsl_.fi)
     units.obligations(ctx, "C18.f", "MTVRPGenerator._generate", gsl_.it, gsl_.fr, gsl_.where, 15, declared_out=units.MTVRP_CELLS)
+
+
+def _ctor_default(cls_node, name):
+    """default value (python constant) of constructor parameter `name`, or (None, annotation)"""
+    for n in cls_node.body:
+        if isinstance(n, ast.FunctionDef) and n.name == "__init__":
+            args = n.args.args
+            defaults = [None] * (len(args) - len(n.args.defaults)) + list(n.args.defaults)
+            for a, d in zip(args, defaults):
+                if a.arg == name:
+                    ann = ast.unparse(a.annotation) if a.annotation is not None else None
+                    return (d.value if isinstance(d, ast.Constant) else None), ann
+    return None, None
+
+
+def fjsp_eligibility(ctx: Ctx):
+    """C18.i FJSP: every real operation is eligible on between min_eligible and max_eligible machines (at least one), with a
+    processing time inside [min_processing_time, max_processing_time] there and 0 elsewhere:
+      proc_times = T * E;  E = shuffle_along_machines(arange(1 .. num_mas) <= n_eligible[..., None]);
+      n_eligible = randint(min_eligible, max_eligible + 1) with padded operations set to 0;
+      T by bound lineage in both sampling modes, incl. positivity of the modulus used to shift the residue."""
+    from .. import bounds
+    env = EnvA(ctx.repo, T.ALL_ENVS["FJSPEnv"], "FJSPEnv")
+    g, gsl = generator_slot(ctx.repo, env.cls)
+    if gsl is None or not isinstance(gsl.fr.ret, vg.TD) or gsl.problems():
+        raise AnalysisError("FJSPGenerator._generate not analysable")
+    ctx.fn(gsl.fi)
+    where = gsl.where
+    pt = nf.strip(gsl.fr.ret.cells.get("proc_times"))
+    if pt is None or pt.op != "*" or len(pt.args) != 2:
+        raise AnalysisError("FJSPGenerator: proc_times is not times * eligibility")
+
+    def shape_only(z):
+        return (z.op == "attr" and z.args[1] == "shape") or (z.op == "meth" and z.args[1] == "size") or (z.op == "kw" and z.args[0] == "size")
+
+    def has_cmp(n):
+        return any(nf._cmp_raw(x) is not None for x in vg.walk(n, stop=shape_only) if not shape_only(x))
+
+    Tm, E = pt.args
+    if has_cmp(Tm) and not has_cmp(E):
+        Tm, E = E, Tm
+    if not has_cmp(E) or has_cmp(Tm):
+        raise AnalysisError("FJSPGenerator: cannot tell the eligibility factor from the processing-time factor")
+    # ---- eligibility indicator
+    cmps = [x for x in vg.walk(E, stop=lambda z: shape_only(z) or z.op == "store") if nf._cmp_raw(x) is not None and not shape_only(x) and x.op != "store"]
+    n_el = None
+    ok_cnt, why_cnt = False, f"expected one comparison arange(...) <= n_eligible, found {len(cmps)}"
+    if len({c.id for c in cmps}) == 1:
+        l, op, r = nf._cmp_raw(cmps[0])
+        # orient: counter OP n_eligible
+        def is_arange(x):
+            return any(nf._fn(y) == "torch.arange" for y in vg.walk(x, stop=lambda z: z.op == "store"))
+        if is_arange(r) and not is_arange(l):
+            l, r = r, l
+            op = {"<": ">", "<=": ">=", ">": "<", ">=": "<=", "==": "==", "!=": "!="}[op]
+        ar = [y for y in vg.walk(l, stop=lambda z: z.op == "store") if nf._fn(y) == "torch.arange"]
+        if len(ar) == 1 and op in ("<=", "<"):
+            a = ar[0]
+            pos = [x for x in a.args[1:] if not (isinstance(x, vg.S) and x.op == "kw")]
+            start, end = (pos[0], pos[1]) if len(pos) >= 2 else (vg.mk("const", 0), pos[0])
+            first = nf.poly(start)
+            length = nf.poly(end) - nf.poly(start)
+            want_first = 1 if op == "<=" else 0
+            ok_cnt = first == nf.Poly.const(want_first) and length == nf.poly(vg.mk("selfattr", "num_mas"))
+            why_cnt = (f"indicator `{vg.show(start)}..{vg.show(end)} {op} n_eligible`: the row of an operation holds exactly n_eligible ones "
+                       f"iff the counter starts at {want_first} and has num_mas entries: {ok_cnt}")
+            n_el = r
+        else:
+            why_cnt = f"eligibility comparison `{vg.show(cmps[0], 3)}` is not counter <= n_eligible"
+    ctx.ob("C18.i", "FJSPGenerator:eligible-count", ok_cnt, where, why_cnt, construct="FJSPGenerator._simulate_processing_times:eligible-count")
+    # shuffle: a permutation along the machine axis (the counter's axis)
+    gathers = [x for x in vg.walk(E) if x.op == "meth" and x.args[1] == "gather"]
+    ok_sh, why_sh = False, "the unshuffled indicator is not permuted by gather(axis, rand.argsort())"
+    if len(gathers) == 1:
+        gt = gathers[0]
+        ax = nf.axis_arg(gt)
+        idx = [x for x in gt.args[2:] if isinstance(x, vg.S) and x.op != "kw" and x is not ax]
+        idx = idx[0] if idx else None
+        srt = nf.strip(idx) if idx is not None else None
+        if srt is not None and srt.op == "meth" and srt.args[1] == "argsort":
+            sax = nf.axis_arg(srt)
+            sax_v = sax.args[0] if isinstance(sax, vg.S) and sax.op == "const" else (-1 if sax is None else None)
+            gax_v = ax.args[0] if isinstance(ax, vg.S) and ax.op == "const" else None
+            rnd = nf.strip(srt.args[0])
+            random_keys = nf._fn(rnd) in ("torch.rand_like", "torch.rand", "torch.randn_like")
+            same_shape = nf._fn(rnd) != "torch.rand_like" or nf.strip(rnd.args[1]) is nf.strip(gt.args[0])
+            ok_sh = gax_v in (2, -1) and sax_v in (2, -1) and random_keys and same_shape
+            why_sh = f"gather(axis {gax_v}, argsort(axis {sax_v}) of random keys of the same shape): a permutation of each operation's machine row keeps its number of ones: {ok_sh}"
+    ctx.ob("C18.i", "FJSPGenerator:shuffle-is-a-row-permutation", ok_sh, where, why_sh, construct="FJSPGenerator._simulate_processing_times:shuffle")
+    # n_eligible = randint(min_el, max_el + 1) with padded ops zeroed
+    ok_ne, why_ne = False, "n_eligible not identified"
+    if n_el is not None:
+        st = nf.strip(n_el)
+        base = st.args[0] if st.op == "store" else st
+        zero_pad = st.op == "store" and vg.is_const(st.args[2], 0) and any(x.op == "meth" and x.args[1] == "ge" or nf._cmp_raw(x) is not None for x in vg.walk(st.args[1]))
+        if nf._fn(nf.strip(base)) == "torch.randint":
+            lo, hi = bounds.Prover._randint(nf.strip(base))
+            ok_lo = lo is not None and nf.poly(lo) == nf.poly(vg.mk("selfattr", "min_eligible_ma_per_op"))
+            ok_hi = hi is not None and nf.poly(hi) - nf.Poly.const(1) == nf.poly(vg.mk("selfattr", "max_eligible_ma_per_op"))
+            dflt, ann = _ctor_default(g.node, "min_eligible_ma_per_op")
+            ok_ne = ok_lo and ok_hi and zero_pad and isinstance(dflt, int) and dflt >= 1
+            why_ne = (f"n_eligible = randint(min_eligible: {ok_lo}, max_eligible + 1: {ok_hi}), padded operations zeroed: {zero_pad}, "
+                      f"default min_eligible_ma_per_op = {dflt} >= 1")
+    ctx.ob("C18.i", "FJSPGenerator:n-eligible-range", ok_ne, where, why_ne, construct="FJSPGenerator._generate:n-eligible")
+    # ---- processing times by lineage
+    MIN, MAX = vg.mk("selfattr", "min_processing_time"), vg.mk("selfattr", "max_processing_time")
+    dmin, amin = _ctor_default(g.node, "min_processing_time")
+    dmax, amax = _ctor_default(g.node, "max_processing_time")
+    mods = [n for n in vg.walk(Tm) if n.op == "%"]
+    mod_ids = {nf.strip(m.args[1]).id for m in mods}
+    mod_ok = {}
+
+    def slack(u, a):
+        if a is None and isinstance(u, vg.S) and u.op == "selfattr" and u.args[0] in ("min_processing_time", "max_processing_time"):
+            return "min_processing_time, max_processing_time >= 0 (defaults %s, %s)" % (dmin, dmax) if isinstance(dmin, int) and dmin >= 0 else None
+        if a == "int" and isinstance(u, vg.S) and u.op == "selfattr":
+            return "processing-time bounds are integers (constructor annotation int)" if amin == "int" and amax == "int" else None
+        if a is None and isinstance(u, vg.S) and u.id in mod_ids:
+            return "modulus positive (proved separately below)" if mod_ok.get(u.id) else None
+        if isinstance(a, vg.S) and u is MAX and a is MIN:
+            return "min_processing_time <= max_processing_time (configuration)"
+        return None
+
+    for m in mods:
+        mm = nf.strip(m.args[1])
+        good = False
+        if mm.op == "-" and len(mm.args) == 2:
+            Pm = bounds.Prover(slack)
+            good = Pm.ge(vg.mk("-", mm.args[0], vg.mk("const", 1)), mm.args[1])
+            for a in Pm.assumptions:
+                ctx.assume("FJSPGenerator: " + a)
+        mod_ok[mm.id] = good
+        ctx.ob("C18.i", "FJSPGenerator:residue-modulus-positive", good, where,
+               f"`x % (high - low) + low`: high - low >= 1 because min(max, round(1.2 m)) >= m >= max(min, round(0.8 m)) for the sampled mean m in [min, max): {good}",
+               construct="FJSPGenerator._simulate_processing_times:modulus")
+    P1 = bounds.Prover(slack)
+    ok_ge = P1.ge(Tm, MIN)
+    ctx.ob("C18.i", "FJSPGenerator:proc-time >= min_processing_time", ok_ge, where,
+           "both sampling modes bounded below by min_processing_time (> 0: an eligible pair never gets the 'not eligible' value 0)" if ok_ge else "lower bound lost: " + "; ".join(P1.trace[-2:]),
+           construct="FJSPGenerator._simulate_processing_times:lower-bound")
+    P2 = bounds.Prover(slack)
+    ok_le = P2.le(Tm, MAX)
+    ctx.ob("C18.i", "FJSPGenerator:proc-time <= max_processing_time", ok_le, where,
+           "both sampling modes bounded above by max_processing_time" if ok_le else "upper bound lost: " + "; ".join(P2.trace[-2:]),
+           construct="FJSPGenerator._simulate_processing_times:upper-bound")
+    ok_pos = isinstance(dmin, int) and dmin >= 1
+    ctx.ob("C18.i", "FJSPGenerator:min_processing_time default >= 1", ok_pos, where, f"default {dmin}", construct="FJSPGenerator.__init__:min_processing_time")
+    for a in dict.fromkeys(P1.assumptions + P2.assumptions):
+        ctx.assume("FJSPGenerator: " + a)
 
 
 def cvrptw_windows(ctx: Ctx):
